@@ -141,6 +141,10 @@ def with_defaults(rng, ms: MapSpec) -> MapSpec:
             group.append(replace(b, segs=(Seg(lit="bo2" + tag),) + b.segs, build_only=True))
     if c > 0.5 and not bo_group:
         group.append(replace(b, segs=(Seg(lit="old" + tag),) + b.segs, alias=True))
+        if rng.random() < 0.45:
+            # an alias with MORE arguments than the canonical rule (its own extra default): Rule('/legacy/<int:id>',
+            # defaults={'fmt': 'html'}, alias=True) next to Rule('/item/<int:id>') - the canonical rule still builds first
+            group.append(replace(b, segs=(Seg(lit="leg" + tag),) + b.segs[1:], defaults=(("fmt", "html"),), alias=True))
     if rng.random() < 0.4 and not bo_group:
         # an alias that carries a default for the argument the canonical rule takes from the URL (more defaults than
         # the canonical rule): Rule('/users.html', defaults={'page': 1}, alias=True) next to Rule('/users/page/<int:page>')
@@ -328,7 +332,15 @@ def judge_c12(chk, m, by_obj, ms: MapSpec, oracles, ad: Adapter, path: str, meth
     if not final.startswith("M "):
         return "redirect-target-not-matching", f"{path!r} is redirected to {chain!r}, which answers {final}"
     _, idx, ep, args = final.split(" ")
-    if (int(ep), args) not in denote:
+    # an alias rule's own defaults (arguments the canonical rule does not have) do not survive the canonicalisation
+    fr = _rule_by_idx(ms, int(idx))
+    final_args = {n for n, _ in fr.convs()} | {k for k, _ in fr.defaults}
+    alias_keys = {cps(k) for r in ms.rules if r.alias for k, _ in r.defaults if k not in final_args}
+
+    def without_alias_defaults(a: str) -> str:
+        kept = [kv for kv in a.split("|") if kv.split("=")[0] not in alias_keys]
+        return "|".join(kept) if kept else "-"
+    if (int(ep), args) not in denote and (int(ep), args) not in {(e, without_alias_defaults(a)) for e, a in denote}:
         return "redirect-changes-request", f"{path!r} -> {chain!r} matches endpoint e{ep} {args}, the original path denotes {sorted(map(repr, denote))}"
     if len(chain) > 3:
         return "redirect-too-many-hops", f"{chain!r}"
